@@ -105,7 +105,11 @@ def named_case(args):
         if r.outcome in ('timeout', 'harness'):
             return label, None, files
         got = [l for l in r.out.split('\n') if l]
-        if r.outcome != 'ok':
+        if want and want[-1].startswith('<outcome '):
+            got.append('<outcome %s>' % r.outcome)
+            if got != want:
+                bad = bad or '%s: stdout and outcome %r, expected %r' % (cfg, got, want)
+        elif r.outcome != 'ok':
             bad = bad or '%s: outcome %s %s' % (cfg, r.outcome, r.detail)
         elif got != want:
             bad = bad or '%s: stdout %r, expected %r' % (cfg, got, want)
